@@ -204,9 +204,28 @@ class _Marker:
     """Replacement node returned by the visitor (an Identifier so that printing still works)."""
 
 
+# attributes the contract leaves out on purpose (assumption listed in the evidence)
+NOT_WALKED_BY_CONTRACT = {('Select', 'limit'), ('Select', 'offset'), ('Union', 'limit'), ('Union', 'offset'),
+                          ('Select', 'cte'), ('Update', 'from_select_alias')}    # CTE entries are projected through their queries
+MARKER_KIND = [0]
+
+
 def make_marker(n=0):
-    from mindsdb_sql.parser.ast import Identifier
-    m = Identifier(parts=['__marker%d__' % n])
+    """The node a visitor returns.  Its class rotates: an identifier, an EMPTY tuple, the constants 0 and '' and NULL --
+    a replacement is a replacement whatever it is (the walker must not test it for truth)."""
+    from mindsdb_sql.parser.ast import Identifier, Tuple, Constant, NullConstant
+    MARKER_KIND[0] += 1
+    k = MARKER_KIND[0] % 5
+    if k == 0:
+        m = Identifier(parts=['__marker%d__' % n])
+    elif k == 1:
+        m = Tuple(items=[])
+    elif k == 2:
+        m = Constant(0)
+    elif k == 3:
+        m = Constant('')
+    else:
+        m = NullConstant()
     m._verif_marker = True
     m._verif_marker_n = n
     return m
@@ -237,14 +256,52 @@ def run_replace2(root, idmap, plan):
     return (res if res is not None else root), repl, state.get('mv', 0)
 
 
+SEEN_BY_VISITOR = set()
+
+
+def unmodelled_nodes(root, idmap):
+    """AST nodes reachable from the statement by plain attribute reflection that the projection (Traversal.Schema) does
+    not account for: [(parent class, attribute, node)].  A node that is part of the statement but outside the schema is
+    either a gap of the specification or a node that moved out of the walker's reach."""
+    from mindsdb_sql.parser.ast.base import ASTNode
+    out, seen = [], set()
+
+    def walk(o, parent, attr):
+        if id(o) in seen or o is None or isinstance(o, (str, int, float, bool, bytes, type)):
+            return
+        seen.add(id(o))
+        if isinstance(o, ASTNode):
+            if id(o) not in idmap and parent is not None:
+                if id(parent) in idmap:
+                    out.append((type(parent).__name__, attr, o))     # top-most node outside the schema, under a known one
+                return
+            for k_, v in vars(o).items():
+                if not k_.startswith('_'):
+                    walk(v, o, k_)
+        elif isinstance(o, (list, tuple)):
+            for x in o:
+                walk(x, parent, attr)
+        elif isinstance(o, dict):
+            for x in o.values():
+                walk(x, parent, attr)
+        elif hasattr(o, '__dict__'):
+            for k_, v in vars(o).items():
+                if not k_.startswith('_'):
+                    walk(v, parent if parent is not None else o, attr or k_)
+    walk(root, None, '')
+    return out
+
+
 def run_visit(root, idmap):
     from mindsdb_sql.planner.utils import query_traversal
     got = []
+    SEEN_BY_VISITOR.clear()
 
     def cb(node, is_table=False, is_target=False, parent_query=None, **kw):
         if node is None:
             return None
         from mindsdb_sql.parser.ast.base import ASTNode
+        SEEN_BY_VISITOR.add(id(node))
         if id(node) not in idmap and not isinstance(node, (list, tuple, dict, str, int, float)):
             return None     # an object of the statement that the contract does not require (e.g. a column definition)
         got.append({'id': idmap.get(id(node), -1), 'table': bool(is_table), 'target': bool(is_target)})
@@ -306,6 +363,14 @@ def run(ctx):
             ctx.violation('walker-raises:%s' % type(e).__name__, 'query_traversal raised on a well-formed tree: %s' % e,
                           {'source': source, 'tree': t_spec})
             return
+        # nodes of the statement the schema does not know: they must at least have been shown to the visitor
+        for pk, attr, node in (unmodelled_nodes(root, idmap) if id(root) in idmap else []):
+            if id(node) not in SEEN_BY_VISITOR and (pk, attr) not in NOT_WALKED_BY_CONTRACT and attr != 'alias' \
+                    and schema.get(pk):
+                ctx.violation('missing:%s.%s(outside-schema)' % (pk, attr),
+                              'a node of the statement (attribute %s of %s, class %s) is reachable in the tree but neither known to the '
+                              'walker contract nor shown to the visitor' % (attr, pk, type(node).__name__),
+                              {'source': source, 'tree': t_spec})
         traces.append({'kind': 'visit', 't': t_spec, 'got': got})
         meta.append((source, None))
         ks = list(range(1, len(got) + 1))
@@ -387,14 +452,19 @@ def run(ctx):
         n_parsed += 1
         add_tree_cases(t_spec, mk, sql, 6 if not thorough else 15)
 
-    path = ctx.work / 'travtraces.json'
-    dump_json(path, traces)
-    r = ctx.tlc('TraversalTrace', env={'VERIF_TRACES': path}, name='traversal_trace', timeout=6000)
-    if not r.ok:
-        raise MachineryError('TraversalTrace failed: %s' % r.errors[:3])
+    # validated in batches: one JSON document of every run is too large for TLC's deserialiser in the thorough tier
     verdicts = {}
-    for v in find_prints(r.out, 'ACC'):
-        verdicts[v[1]] = v[2]
+    BATCH = 15000
+    for b0 in range(0, len(traces), BATCH):
+        path = ctx.work / ('travtraces_%d.json' % (b0 // BATCH))
+        dump_json(path, traces[b0:b0 + BATCH])
+        r = ctx.tlc('TraversalTrace', env={'VERIF_TRACES': path}, name='traversal_trace' + ('_%d' % (b0 // BATCH) if b0 else ''),
+                    timeout=6000)
+        if not r.ok:
+            raise MachineryError('TraversalTrace failed: %s' % r.errors[:3])
+        for v in find_prints(r.out, 'ACC'):
+            verdicts[b0 + v[1]] = v[2]
+        path.unlink()
     if len(verdicts) != len(traces):
         raise MachineryError('TraversalTrace judged %d of %d' % (len(verdicts), len(traces)))
     n_visit = n_repl = 0
